@@ -336,7 +336,7 @@ def bindDataclassWith (e : BEnv) (rec : Rec) (Γ : Ctx) (cfg : ParserConfig) (cl
           match classFactory Γ clazz params with
           | .error err => ND.fail err
           | .ok v => ND.ofExcept (genericView v)
-  | _ => ND.fail (.leaked "AttributeError")      -- `data.keys()`
+  | _ => ND.fail (.parser "Expected an object")      -- `isinstance(data, dict)` guard
 
 def bindDataclassF (e : BEnv) (Γ : Ctx) : Nat → Rec
   | 0 => fun _ _ _ => ND.fail (.unsupported "fuel")
@@ -385,13 +385,7 @@ def detectType (Γ : Ctx) (data : J) : Except Err ClassId :=
     let keys : Except Err (List Str) := match data with
       | .arr (.obj kvs :: _) => .ok (kvKeys kvs)
       | .obj kvs => .ok (kvKeys kvs)
-      | .str _ => .error (.leaked "AttributeError")
-      | .arr (.arr _ :: _) => .error (.leaked "AttributeError")
-      | .arr (.str _ :: _) => .error (.leaked "AttributeError")
-      | .arr (.num _ :: _) => .error (.leaked "AttributeError")
-      | .arr (.bool _ :: _) => .error (.leaked "AttributeError")
-      | .arr (.null :: _) => .error (.leaked "AttributeError")
-      | _ => .error (.leaked "AttributeError")
+      | _ => .error (.parser "Document is not an object, can not detect type")
     match keys with
     | .error err => .error err
     | .ok keys =>
